@@ -43,8 +43,8 @@ static void build(const mj::Value& nd, JsonVariant dst, std::vector<FloatObs>& f
   if (t == "n") dst.set(nullptr);
   else if (t == "T") dst.set(true);
   else if (t == "F") dst.set(false);
-  else if (t == "i+") dst.set((unsigned long long)be64(b));
-  else if (t == "i-") dst.set((long long)be64(b));
+  else if (t == "i+") dst.set((JsonUInt)be64(b));        // unsigned long when ARDUINOJSON_USE_LONG_LONG=0
+  else if (t == "i-") dst.set((JsonInteger)be64(b));
   else if (t == "f4") {
     uint32_t bits = (uint32_t)be64(b);
     float f;
